@@ -52,3 +52,31 @@ def addr_space(prog):
     if nfiles < 1:
         raise AnalysisBroken('ADDR-SPACE: no simulator wraps its byte accesses any more')
     return RuleResult('ADDR-SPACE', obs, 1, {'simulators_with_wrapped_addresses': nfiles})
+
+
+def sim_static(prog):
+    """SIM-STATIC (C15): a simulator keeps all of its state in its object: no function of simulate/ stores to a variable with
+    static storage (file-scope or function-local static), except the Ctrl-C flag Simulate::stop_running.  Hidden state makes
+    a step depend on what was executed before it, from the same visible starting state."""
+    from nk.report import Ob, RuleResult, DISCHARGED, VIOLATED
+    obs = []
+    for name, lst in sorted(prog.global_writes().items()):
+        for fn, n in lst:
+            if not fn.file.startswith('simulate/'):
+                continue
+            k = sum(1 for o in obs if o.function == fn.q and o.construct.split('#')[0] == 'store:' + name)
+            construct = 'store:' + name + ('#%d' % (k + 1) if k else '')
+            if name == 'Simulate::stop_running':
+                obs.append(Ob('SIM-STATIC', fn.file, n['l'], fn.q, construct, DISCHARGED, '',
+                              'the interrupt flag of the run loop (set by the signal handler, cleared when run() starts)', False))
+            else:
+                obs.append(Ob('SIM-STATIC', fn.file, n['l'], fn.q, construct, VIOLATED,
+                              'store to the static-storage variable `%s` in a simulator: the state survives reset() and a new '
+                              'simulator object, so the same step from the same registers and memory can give different results' % name))
+    nsim = len([f for f in prog.fns.values() if f.file.startswith('simulate/')])
+    obs.append(Ob('SIM-STATIC', 'simulate/', 0, '*', 'scan', DISCHARGED, '',
+                  'scanned %d simulator functions for stores rooted at static-storage variables' % nsim, False))
+    if nsim < 300:
+        from nk.build import AnalysisBroken
+        raise AnalysisBroken('SIM-STATIC: only %d simulator functions' % nsim)
+    return RuleResult('SIM-STATIC', obs, 1, {'simulator_functions': nsim})
